@@ -98,6 +98,52 @@ def canon(x):
     return ("repr", type(x).__name__)
 
 
+def arrays_of(o):
+    """every numpy buffer that carries the value of an object (for independence checks)"""
+    Q = q()
+    if isinstance(o, np.ndarray):
+        return [o]
+    if isinstance(o, Q["st"].State):
+        return [o.vec]
+    if isinstance(o, Q["gt"].Gate):
+        return [o.hs]
+    if isinstance(o, Q["pv"].Povm):
+        return list(o.vecs)
+    if isinstance(o, Q["mp"].MProcess):
+        return list(o.hss)
+    if isinstance(o, Q["md"].MultinomialDistribution):
+        return [o.ps]
+    if isinstance(o, Q["se"].StateEnsemble):
+        return [a for x in o.states for a in arrays_of(x)] + [o.prob_dist.ps]
+    if isinstance(o, (list, tuple)):
+        return [a for x in o for a in arrays_of(x)]
+    return []
+
+
+def _overlap(a, b):
+    return a is b or (a.size > 0 and b.size > 0 and np.may_share_memory(a, b) and np.shares_memory(a, b))
+
+
+def independence(res, others):
+    """a NEW object returned by an operation must own its arrays: no two of its components may be one array (a later in-place
+    update of one would change the other) and none may share memory with an object that existed before.  others: [(name, arrays)]"""
+    own = arrays_of(res)
+    msgs = []
+    for i in range(len(own)):
+        for j in range(i):
+            if _overlap(own[i], own[j]):
+                msgs.append(("result-internal-aliasing", "components %d and %d of the returned object are the same memory" % (j, i)))
+                break
+        else:
+            continue
+        break
+    for name, arrs in others:
+        if any(_overlap(a, b) for a in own for b in arrs):
+            msgs.append(("result-aliases-existing-object", "the returned object shares memory with %s" % name))
+            break
+    return msgs
+
+
 _PROPS = {}
 
 
@@ -805,7 +851,8 @@ VARFN = ["calc_proj_eq_constraint_with_var", "calc_proj_ineq_constraint_with_var
 FACTORIES = {"func_calc_proj_eq_constraint": 1, "func_calc_proj_eq_constraint_with_var": 1, "func_calc_proj_ineq_constraint": 1,
              "func_calc_proj_ineq_constraint_with_var": 1, "func_calc_proj_physical": 3, "func_calc_proj_physical_with_var": 3}
 FACTORY_ARGS = [(op, order, it) for op in (None, True, False) for order in (None, "eq_ineq", "ineq_eq") for it in (None, 1, 30)]
-SETTERS = [("set_mode_proj_order", "eq_ineq"), ("set_mode_proj_order", "ineq_eq"), ("eps_truncate_imaginary_part", 1e-6), ("eps_truncate_imaginary_part", 1e-11)]
+SETTERS = [("set_mode_proj_order", "eq_ineq"), ("set_mode_proj_order", "ineq_eq"), ("eps_truncate_imaginary_part", 1e-6), ("eps_truncate_imaginary_part", 1e-11),
+           ("set_zero", None)]
 
 
 def probe_vectors(obj, on_para):
@@ -846,6 +893,8 @@ def perform(world, desc, operands):
         o = operands[0]
         if desc["m"] == "set_mode_proj_order":
             o.set_mode_proj_order(desc["v"])
+        elif desc["m"] == "set_zero":
+            o.set_zero()
         else:
             setattr(o, desc["m"], desc["v"])
         return o                                                    # the whole object afterwards is the observation
@@ -1160,6 +1209,15 @@ def run_history(ctx, case, report=True):
             cl = [w_ for w_ in watch if isinstance(w_["obj"], Closure)]
             ot = [w_ for w_ in watch if not isinstance(w_["obj"], Closure)]
             watch[:] = sorted(cl[-4:] + ot[-8:], key=lambda w_: w_["k"])
+        # ---- a returned quara object is a NEW object: it owns its arrays (accessors that hand out a member are exempt)
+        accessor = desc["t"] in ("setter", "cache", "basisq") or (desc["t"] == "md" and desc["m"] == "state") or \
+            (desc["t"] == "unary" and desc["m"] in ("states", "prob_dist", "ps", "shape", "eps_zero", "is_zero_dist"))
+        if not accessor and not isinstance(res, (Exception, np.ndarray, Closure)) and arrays_of(res):
+            # generate_from_var is a constructor in the sense of the property ("constructors, which adopt the arrays handed to
+            # them, excepted"): the generated object may be a view of the variable vector, and so may an object generated earlier
+            adopts = desc["t"] == "varfn" and desc["m"] == "generate_from_var"
+            for sig, msg in independence(res, [] if adopts else [(key, arrays_of(ent["obj"])) for key, ent in pool.items() if ent["kind"] != "var"]):
+                fails.append((site, sig, k, "op %d (%s): %s" % (k, site, msg)))
         # ---- results join the pool
         labels.append(desc["t"] if not isinstance(res, Exception) else desc["t"] + "!raise")
         if desc["t"] == "setter":
@@ -1281,6 +1339,340 @@ def chk_factory(ctx, case):
                 break
 
 
+# ------------------------------------------------------------------------------------------------ utility functions
+def pure_table():
+    """(module, function, [argument lists]) for the array-valued helper functions that the objects, losses and estimators call on
+    the user's data: float64 / complex128 arrays (never lists - those would be copied by np.asarray anyway), probability
+    vectors with an entry that is exactly 0 in first / middle / last position, matrices with rounding-size imaginary parts"""
+    A = lambda *v: np.array(v, dtype=np.float64)
+    pvs = [A(0.5, 0.3, 0.2), A(1.0, 0.0), A(0.0, 0.25, 0.75), A(0.25, 0.0, 0.75), A(0.25, 0.75, 0.0)]
+    H2 = np.array([[1.0, 0.5 - 0.25j], [0.5 + 0.25j, -0.5]], dtype=np.complex128)
+    R4 = np.array([[((3 * i + 5 * j) % 7 - 3) / 4.0 for j in range(4)] for i in range(4)], dtype=np.float64)
+    C4 = R4 + 1e-15j * R4.T
+    P4 = R4 @ R4.T
+    grads = lambda m: [A(*[((2 * x + a) % 5 - 2) / 3.0 for a in range(3)]) for x in range(m)]
+    T = []
+    for n in ("is_real", "is_symmetric", "is_unitary", "is_hermitian", "is_positive_semidefinite", "truncate_imaginary_part",
+              "truncate_computational_fluctuation", "truncate_and_normalize", "calc_left_inv", "flatten", "toarray", "where_not_zero", "eig"):
+        T.append(("matrix_util", n, [[H2.copy()], [R4.copy()], [C4.copy()], [P4.copy()]]))
+    T += [("matrix_util", "partial_trace1", [[C4.copy(), 2], [R4.copy(), 2]]), ("matrix_util", "is_tp", [[C4.copy(), 2], [P4.copy(), 2]]),
+          ("matrix_util", "truncate_hs", [[C4.copy()], [R4.astype(np.complex128)], [R4.copy()]]),
+          ("matrix_util", "replace_prob_dist", [[v.copy()] for v in pvs] + [[pvs[1].copy(), 1e-3]]),
+          ("matrix_util", "calc_covariance_mat", [[v.copy(), 100] for v in pvs]),
+          ("matrix_util", "calc_covariance_mat_total", [[[(100, pvs[0].copy()), (50, pvs[1].copy())]], [[(10, pvs[2].copy())]]]),
+          ("matrix_util", "calc_direct_sum", [[[H2.copy(), R4.copy()]], [[P4.copy()]]]),
+          ("matrix_util", "calc_conjugate", [[H2.copy(), H2.T.copy()]]),
+          ("matrix_util", "calc_mat_from_vector_adjoint", [[np.array([1.0 + 1j, 0.5], dtype=np.complex128)]]),
+          ("matrix_util", "calc_se", [[[pvs[0].copy(), pvs[1].copy()], [pvs[4].copy(), pvs[1][::-1].copy()]]]),
+          ("matrix_util", "calc_mse_prob_dists", [[[[pvs[0].copy()], [pvs[2].copy()]], [[pvs[3].copy()], [pvs[4].copy()]]]]),
+          ("matrix_util", "calc_fisher_matrix", [[v.copy(), grads(len(v))] for v in pvs]),
+          ("matrix_util", "calc_fisher_matrix_total", [[[pvs[1].copy(), pvs[2].copy()], [grads(2), grads(3)], [100.0, 50.0]]]),
+          ("matrix_util", "kron", [[H2.copy(), R4.copy()]]), ("matrix_util", "vdot", [[H2.copy(), H2.conj().copy()]]),
+          ("matrix_util", "allclose", [[R4.copy(), C4.copy()]]),
+          ("entropy", "round_varz_vector", [[v.copy(), 1e-10] for v in pvs]),
+          ("entropy", "relative_entropy", [[pvs[3].copy(), pvs[0].copy()], [pvs[0].copy(), pvs[4].copy(), None, None, False]]),
+          ("entropy", "relative_entropy_vector", [[pvs[3].copy(), pvs[0].copy()], [pvs[0].copy(), pvs[4].copy(), None, None, False]]),
+          ("entropy", "gradient_relative_entropy_2nd", [[pvs[3].copy(), pvs[0].copy(), np.array(grads(3))]]),
+          ("entropy", "gradient_relative_entropy_2nd_vector", [[pvs[3].copy(), pvs[0].copy(), np.array(grads(3))]]),
+          ("entropy", "hessian_relative_entropy_2nd", [[pvs[3].copy(), pvs[0].copy(), np.array(grads(3)), np.zeros((3, 3, 3))]]),
+          ("matrix", "multiply_veca_vecb", [[pvs[0].copy(), pvs[2].copy()]]),
+          ("matrix", "multiply_veca_vecb_matc", [[pvs[0].copy(), pvs[2].copy(), np.diag(pvs[3]).copy()]]),
+          ("matrix", "project_to_traceless_matrix", [[P4.copy()], [H2.copy()]]),
+          ("norm", "l2_norm", [[pvs[0].copy(), pvs[2].copy()]]),
+          ("probability", "validate_prob_dist", [[v.copy()] for v in pvs]),
+          ("func_proj", "proj_to_hyperplane", [[A(1.0, 2.0, 2.0)]]), ("func_proj", "proj_to_nonnegative", [[]]), ("func_proj", "proj_to_self", [[]])]
+    return T
+
+
+def chk_pure(ctx, case):
+    """helper functions neither change their arguments nor depend on earlier calls (the returned projection functions neither)"""
+    import importlib
+    modname = {"matrix_util": "quara.utils.matrix_util"}.get(case["mod"], "quara.math." + case["mod"])
+    f = getattr(importlib.import_module(modname), case["fn"])
+    rows = [r for (mo, fn, rws) in pure_table() if mo == case["mod"] and fn == case["fn"] for r in rws]
+    site = "%s.%s" % (case["mod"], case["fn"])
+    for idx, args in enumerate(rows):
+        if case.get("row") is not None and idx != case["row"]:
+            continue
+        sub = dict(case, row=idx)
+        d0 = digest(args)
+
+        def call(a):
+            try:
+                with warnings.catch_warnings():
+                    warnings.simplefilter("ignore")
+                    r = f(*a)
+                    if callable(r):                       # projection factories: observe the function on a probe vector
+                        probe = np.array([0.5, -1.5, 2.0])
+                        pd = digest(probe)
+                        out = r(probe)
+                        return ["function", canon(out), digest(probe) == pd]
+                    return canon(r)
+            except Exception as e:
+                return canon(e)
+        r1 = call(args)
+        changed = digest(args) != d0
+        ctx.count("pure", key=(site, idx), nontrivial=not (isinstance(r1, tuple) and r1[0] == "exc"), label=case["mod"])
+        if changed:
+            ctx.violation("pure", site, "mutates-argument", "%s changed its argument(s) (argument list %d of the table: %s)" % (site, idx, _brief(canon(args))), sub)
+            continue
+        if isinstance(r1, list) and len(r1) == 3 and isinstance(r1[0], str) and r1[0] == "function" and r1[2] is False:
+            ctx.violation("pure", site, "mutates-argument", "the function returned by %s changed the vector it was applied to" % site, sub)
+        r2 = call(args)
+        r3 = call([copy.deepcopy(a) for a in args])
+        if not same(r1, r2) or not same(r1, r3):
+            ctx.violation("pure", site, "history-dependent", "%s: first call %s, second call %s, call on copies %s" % (site, _brief(r1), _brief(r2), _brief(r3)), sub)
+
+
+def sub_pure(ctx):
+    cases = [{"mod": mo, "fn": fn} for (mo, fn, _) in pure_table()]
+    ctx.sample("pure", cases[0])
+    ctx.run_cases("pure", chk_pure, cases)
+
+
+# ------------------------------------------------------------------------------------------------ seeded sampling
+def chk_sampling(ctx, case):
+    """an MProcess with mode_sampling=True and its own seed: what a composition returns is determined by the arguments (HS
+    matrices, seed, state, number of draws made from THIS object before) - not by the state of numpy's global generator, which
+    a seeded object must not touch either"""
+    Q = q()
+    rng = random.Random(case["seed"])
+    w = World()
+    pool = make_pool(w, random.Random(case["pool_seed"]))
+    c = w.csys(((0,), 0))
+    def tp_gate():                                 # trace-preserving HS matrix from small rationals
+        hs = np.eye(4)
+        hs[1:, 1:] = np.array([[fr10(rng) for _ in range(3)] for _ in range(3)]) * 0.5
+        hs[1:, 0] = [fr10(rng, -3, 3) * 0.5 for _ in range(3)]
+        return hs
+    hss = [pw * tp_gate() for pw in ([0.5, 0.3, 0.2] if rng.random() < 0.5 else [0.6, 0.4])]      # outcome probabilities = the weights
+    seed = case["mseed"]
+
+    def mk():
+        return Q["mp"].MProcess(c, [h.copy() for h in hss], is_physicality_required=False, mode_sampling=True, random_seed_or_generator=seed)
+    st = Q["st"].State(c, np.array([1.0, fr10(rng, -5, 5), fr10(rng, -5, 5), fr10(rng, -5, 5)]) / np.sqrt(2), is_physicality_required=False)   # trace one
+    target = st if case["on"] == "state" else Q["op"].compose_qoperations(Q["mp"].MProcess(c, [h.copy() for h in hss], is_physicality_required=False), st)
+    runs = []
+    touched = False
+    for g_seed in case["global_seeds"]:
+        m = mk()
+        np.random.seed(g_seed)
+        st0 = np.random.get_state()
+        outs = []
+        for _ in range(case["draws"]):
+            try:
+                with warnings.catch_warnings():
+                    warnings.simplefilter("ignore")
+                    outs.append(canon(Q["op"].compose_qoperations(m, target)))
+            except Exception as e:
+                outs.append(canon(e))
+        st1 = np.random.get_state()
+        touched = touched or not (st0[0] == st1[0] and np.array_equal(st0[1], st1[1]) and st0[2:] == st1[2:])
+        runs.append(outs)
+    ctx.count("sampling", key=(case["on"], seed, tuple(case["global_seeds"])), nontrivial=len(set(repr(o) for o in runs[0])) > 1, label="MProcess x %s" % case["on"])
+    site = "operators._compose_qoperations_MProcess_%s(mode_sampling=True)" % ("State" if case["on"] == "state" else "StateEnsemble")
+    if any(not same(runs[0], r) for r in runs[1:]):
+        ctx.violation("sampling", site, "depends-on-global-rng",
+                      "two MProcess objects built from the same arguments (seed %d) give different sequences of %d compositions depending on the state of numpy's GLOBAL generator "
+                      "(np.random.seed %s): the object's own random_state is not used" % (seed, case["draws"], case["global_seeds"]), case)
+    elif touched:
+        ctx.violation("sampling", site, "consumes-global-rng", "a composition with a seeded sampling MProcess advanced numpy's global generator", case)
+
+
+def sub_sampling(ctx):
+    cases = [{"seed": ctx.rng.randrange(1 << 30), "pool_seed": ctx.rng.randrange(1 << 30), "mseed": ctx.rng.randrange(1000), "on": on,
+              "global_seeds": [1, 2, 3], "draws": 8} for on in ("state", "ensemble") for _ in range(ctx.n(2, 10))]
+    st = np.random.get_state()
+    try:
+        ctx.sample("sampling", cases[0])
+        ctx.run_cases("sampling", chk_sampling, cases)
+    finally:
+        np.random.set_state(st)
+
+
+# ------------------------------------------------------------------------------------------------ tomography objects
+def make_tomo(kind, on_para, world=None):
+    """a 1-qubit tomography object of each class, built from fresh objects"""
+    from quara.objects.povm import get_x_povm, get_y_povm, get_z_povm
+    from quara.objects.state import get_z0_1q, get_z1_1q, get_x0_1q, get_y0_1q
+    w = world or World()
+    c = w.csys(((0,), 0))
+    povms = lambda: [get_x_povm(c), get_y_povm(c), get_z_povm(c)]
+    states = lambda: [get_z0_1q(c), get_z1_1q(c), get_x0_1q(c), get_y0_1q(c)]
+    if kind == "qst":
+        from quara.protocol.qtomography.standard.standard_qst import StandardQst
+        return StandardQst(povms(), on_para_eq_constraint=on_para, seed_data=7)
+    if kind == "povmt":
+        from quara.protocol.qtomography.standard.standard_povmt import StandardPovmt
+        return StandardPovmt(states(), num_outcomes=2, on_para_eq_constraint=on_para, seed_data=7)
+    if kind == "qpt":
+        from quara.protocol.qtomography.standard.standard_qpt import StandardQpt
+        return StandardQpt(states(), povms(), on_para_eq_constraint=on_para, seed_data=7)
+    from quara.protocol.qtomography.standard.standard_qmpt import StandardQmpt
+    return StandardQmpt(states(), povms(), num_outcomes=2, on_para_eq_constraint=on_para, seed_data=7)
+
+
+def tomo_probe_var(qt):
+    return np.array([((5 * i + 2) % 9 - 4) / 10.0 for i in range(qt.num_variables)])
+
+
+def tomo_members(qt):
+    return list(qt.states) + list(qt.povms) + list(qt.gates) + list(qt.mprocesses)
+
+
+def tomo_snapshot(qt):
+    """the observable value of a tomography object: members, coefficient tables and the answers of its queries"""
+    obs = [qt.num_schedules, qt.num_variables, bool(qt.on_para_eq_constraint), np.array(qt.calc_matA()), np.array(qt.calc_vecB()),
+           [canon(x) for x in tomo_members(qt)], canon(qt.generate_empty_estimation_obj_with_setting_info()),
+           canon(qt.convert_var_to_qoperation(tomo_probe_var(qt))), [int(qt.num_outcomes(i)) for i in range(qt.num_schedules)]]
+    h = hashlib.sha1(); _feed(h, [canon(o) for o in obs])
+    return h.hexdigest()
+
+
+TOMO_DERIVE = ["generate_empty_estimation_obj_with_setting_info", "convert_var_to_qoperation",
+               "generate_empty_estimation_obj_with_setting_info().copy", "generate_empty_estimation_obj_with_setting_info().generate_origin_obj",
+               "generate_empty_estimation_obj_with_setting_info().generate_zero_obj"]
+MUTATORS = [("set_mode_proj_order(other order)", lambda o: o.set_mode_proj_order("eq_ineq" if o.mode_proj_order == "ineq_eq" else "ineq_eq")),
+            ("eps_truncate_imaginary_part = 1e-3", lambda o: setattr(o, "eps_truncate_imaginary_part", 1e-3)),
+            ("set_zero()", lambda o: o.set_zero())]
+
+
+def chk_tomo(ctx, case):
+    """objects obtained from a tomography object (empty estimation object, object of a variable vector, and objects derived from
+    those) are independent of it and of each other: every public mutator applied to them leaves the tomography object (members,
+    coefficient tables, answers of all its queries) as it was, and two results of the same query share nothing"""
+    kind, on_para = case["kind"], bool(case["on_para"])
+    qt = make_tomo(kind, on_para)
+    ref = tomo_snapshot(make_tomo(kind, on_para))
+    site0 = "Standard%s%s" % (kind[0].upper(), kind[1:])
+    s0 = tomo_snapshot(qt)
+    ctx.count("tomo", key=(kind, on_para, "queries"), label="%s queries" % kind)
+    if s0 != ref:
+        ctx.violation("tomo", site0, "history-dependent", "two tomography objects built from the same arguments answer their queries differently", case)
+    if tomo_snapshot(qt) != s0:
+        ctx.violation("tomo", site0, "mutates-argument", "answering the queries once changed the answers to the same queries", case)
+        return
+
+    def derive_t(how):
+        d = qt.convert_var_to_qoperation(tomo_probe_var(qt)) if how.startswith("convert") else qt.generate_empty_estimation_obj_with_setting_info()
+        if "()." in how:
+            d = getattr(d, how.split("().")[1])()
+        return d
+    for how in TOMO_DERIVE:
+        site = "%s.%s" % (site0, how)
+        for mname, mut in MUTATORS:
+            if case.get("step") is not None and [how, mname] != list(case["step"]):
+                continue
+            sub = dict(case, step=[how, mname])
+            d1 = derive_t(how)
+            d2 = derive_t(how)
+            ctx.count("tomo", key=(kind, on_para, how, mname), label="%s %s" % (kind, mname))
+            for sig, msg in independence(d1, [("a member / the template of the tomography object", [a for x in tomo_members(qt) for a in arrays_of(x)]),
+                                              ("the object returned by another call of the same query", arrays_of(d2))]):
+                ctx.violation("tomo", site, sig, msg, sub)
+            if d1 is d2 or any(d1 is x for x in tomo_members(qt)):
+                ctx.violation("tomo", site, "result-aliases-existing-object", "the query hands out the same object on every call (its internal one)", sub)
+            before2 = digest(d2)
+            try:
+                mut(d1)
+            except Exception:
+                continue
+            if tomo_snapshot(qt) != s0:
+                ctx.violation("tomo", site, "mutates-derived-from",
+                              "%s on the object returned by %s changed the tomography object (its members / the answers of its queries)" % (mname, how), sub)
+                qt = make_tomo(kind, on_para)
+                continue
+            if digest(d2) != before2:
+                ctx.violation("tomo", site, "mutates-derived-object", "%s on one object returned by %s changed another object returned by the same query" % (mname, how), sub)
+
+
+def sub_tomo(ctx):
+    cases = [{"kind": k, "on_para": op} for k in ("qst", "povmt", "qpt", "qmpt") for op in ((1, 0) if not ctx.quick else (1,) if k == "qmpt" else (0, 1))]
+    ctx.sample("tomo", cases[0])
+    ctx.run_cases("tomo", chk_tomo, cases)
+
+
+GENERATORS = ["copy", "generate_zero_obj", "generate_origin_obj", "calc_proj_eq_constraint", "calc_proj_ineq_constraint", "calc_proj_physical",
+              "to_povm", "convert_to_comp_basis", "copy+set_zero", "generate_from_var(to_var)", "x*0.5", "x+copy"]
+
+
+def derive(obj, g):
+    if g == "copy+set_zero":
+        d = obj.copy(); d.set_zero(); return d
+    if g == "generate_from_var(to_var)":
+        return obj.generate_from_var(obj.to_var(), is_physicality_required=False)
+    if g == "x*0.5":
+        return obj * 0.5
+    if g == "x+copy":
+        return obj + obj.copy()
+    f = getattr(obj, g)
+    return f(max_iteration=50) if g == "calc_proj_physical" else f()
+
+
+def chk_derived(ctx, case):
+    """objects DERIVED from a pool object by every object-returning operation (copy, zero / origin object, projections, conversions,
+    set_zero on a copy, regeneration from the variables, arithmetic): the derived object owns its arrays, and every query /
+    conversion / projection of it gives what the same call gives on a value-identical object built from fresh arrays - the
+    result depends on the VALUE of the operand, not on how it was obtained (no hidden sharing inside the object)"""
+    w = World()
+    pool = make_pool(w, random.Random(case["pool_seed"]))
+    ent = pool[case["key"]]
+    obj, kind = ent["obj"], ent["kind"]
+    g = case["g"]
+    if not (hasattr(obj, g) or "+" in g or "(" in g or "*" in g):
+        return
+    site_g = "%s.%s" % (kind, g)
+    d0 = digest(obj)
+    try:
+        with warnings.catch_warnings():
+            warnings.simplefilter("ignore")
+            d = derive(obj, g)
+    except Exception as e:
+        ctx.count("derived", key=(case["key"], g), nontrivial=False, label="%s!raise" % g)
+        return
+    if digest(obj) != d0:
+        ctx.violation("derived", site_g, "mutates-argument", "%s changed its object" % g, case)
+    for sig, msg in independence(d, [("the object it was derived from", arrays_of(obj))]):
+        ctx.violation("derived", site_g, sig, "%s of pool object %s: %s" % (g, case["key"], msg), case)
+    dk = type(d).__name__
+    if dk not in UNARY or dk in ("MD", "Ens"):
+        ctx.count("derived", key=(case["key"], g), nontrivial=True, label="%s -> %s (not an object)" % (g, dk))
+        return
+    fr = freeze(d, ent["csid"])
+    ulist = [(u, None) for u in UNARY.get(dk, [])] + [(u, i) for u in INDEXED.get(dk, []) for i in (0, (len(d.hss) if dk == "MProcess" else len(d.vecs)) - 1)]
+    for u, i in ulist:
+        if case.get("u") is not None and [u, i] != list(case["u"]):
+            continue
+        desc = {"t": "unary", "m": u, "a": []} if i is None else {"t": "indexed", "m": u, "i": i, "a": []}
+        dd = digest(d)
+
+        def call(x, world):
+            try:
+                with warnings.catch_warnings():
+                    warnings.simplefilter("ignore")
+                    return canon(perform(world, desc, [x]))
+            except Exception as e:
+                return canon(e)
+        r1 = call(d, w)
+        fw = World()
+        r2 = call(thaw(fr, fw), fw)
+        ctx.count("derived", key=(case["key"], g, u, i), nontrivial=not (isinstance(r1, tuple) and r1[0] == "exc"), label="%s -> %s" % (g, dk))
+        sub = dict(case, u=[u, i])
+        if not same(r1, r2):
+            ctx.violation("derived", "%s.%s" % (dk, u), "depends-on-derivation",
+                          "%s of the object obtained by %s from %s: %s; of a value-identical object built from fresh arrays: %s" % (u, g, case["key"], _brief(r1), _brief(r2)), sub)
+        if digest(d) != dd:
+            ctx.violation("derived", "%s.%s" % (dk, u), "mutates-argument", "%s changed the object obtained by %s" % (u, g), sub)
+
+
+def sub_derived(ctx):
+    keys = ["S00", "G01", "P10", "M10"] + ([] if ctx.quick else ["S01", "G00", "P00", "M00", "S20", "P20"])
+    ps = ctx.rng.randrange(1 << 30)
+    cases = [{"pool_seed": ps, "key": key, "g": g} for key in keys for g in GENERATORS]
+    ctx.sample("derived", cases[0])
+    ctx.run_cases("derived", chk_derived, cases)
+
+
 def sub_factory(ctx):
     keys = ["S00", "S01", "G00", "G01", "P00", "P10", "M00", "M10"] + ([] if ctx.quick else ["S10", "S11", "G10", "G11", "S20", "S21", "P20"])
     cases = []
@@ -1387,6 +1779,22 @@ def relent_value(qst, ds, wts, var):
     return float(sum(w[i] * terms[m * i:m * (i + 1)].sum() for i in range(len(ds))))
 
 
+def data_digest(datasets, customs=None):
+    """byte-level fingerprint of the empirical distributions (and weight lists) handed to losses / estimators"""
+    h = hashlib.sha1()
+    for ds in datasets:
+        for n, pr in ds:
+            h.update(repr(n).encode()); h.update(str(pr.dtype).encode()); h.update(np.ascontiguousarray(pr).tobytes())
+    for cw in customs or []:
+        for W in cw:
+            h.update(np.ascontiguousarray(np.asarray(W)).tobytes())
+    return h.hexdigest()
+
+
+LOSS_CLASS = ["WeightedProbabilityBasedSquaredError", "StandardQTomographyBasedWeightedProbabilityBasedSquaredError",
+              "StandardQTomographyBasedWeightedRelativeEntropy", "WeightedRelativeEntropy"]
+
+
 def _observe(loss, var):
     try:
         with warnings.catch_warnings():
@@ -1411,12 +1819,18 @@ def chk_loss(ctx, case):
     m = ctx.get_model()
     setter = (lambda o, W: o.set_weight_matrices(W)) if kind in (0, 1) else (lambda o, W: o.set_weights(W))
     kname = ["generic", "fast", "fast-relent", "relent"][kind]
+    dd0 = data_digest(datasets, customs)
     for k, op in enumerate(case["ops"]):
         sub = dict(case, ops=case["ops"][:k + 1])
         if op[0] == "cfg":
             _, d, mode, ck = op
             opt = loss_option(kind, mode, customs[ck] if mode == "custom" else None)
             loss.set_from_standard_qtomography_option_data(qst, opt, datasets[d], True, False)
+            if data_digest(datasets, customs) != dd0:
+                ctx.violation("loss", LOSS_CLASS[kind] + ".set_from_standard_qtomography_option_data", "mutates-argument",
+                              "configuring the %s loss with mode %s overwrote the empirical distributions / weights handed to it: dataset %d is now %s (given %s)" % (
+                                  kname, mode, d, [[float(x) for x in pr] for _, pr in datasets[d]], case["datasets"][d]), sub)
+                return
             zs_ops += [0, d, MODE_CODE.get(mode, 10 + ck)]
             last_cfg, later_set = (d, mode, ck), None
         else:
@@ -1443,6 +1857,9 @@ def chk_loss(ctx, case):
             setter(fresh, None if later_set < 0 else customs[later_set])
             fresh_ops += [1, later_set, 0]
         obf = _observe(fresh, var)
+        if data_digest(datasets, customs) != dd0:
+            ctx.violation("loss", LOSS_CLASS[kind] + ".value", "mutates-argument", "value()/gradient()/the setter of the %s loss overwrote the data handed to the loss after %s" % (kname, zs_ops), sub)
+            return
         hist_dep = not same(canon(obs), canon(obf), 1e-9)
         label = "%s %s" % (kname, mode if op[0] == "cfg" else "setter")
         if kind in (0, 1):
@@ -1505,7 +1922,8 @@ def chk_loss(ctx, case):
 
 def gen_loss_case(rng, kind, length):
     nd = 4
-    datasets = [[[rng.choice([100, 400, 900, 50]), "%d/20" % rng.randint(1, 19)] for _ in range(3)] for _ in range(nd)]
+    # (probability exactly 0 or 1 - an outcome that never occurred - is met on purpose: the covariance weights replace such entries)
+    datasets = [[[rng.choice([100, 400, 900, 50]), "%d/20" % (rng.choice([0, 20]) if rng.random() < 0.15 else rng.randint(1, 19))] for _ in range(3)] for _ in range(nd)]
     if kind in (0, 1):
         customs = [[["%d/4" % rng.randint(4, 12), "%d/4" % rng.randint(-3, 3), "%d/4" % rng.randint(4, 12)] for _ in range(3)] for _ in range(2)]
     else:
@@ -1637,6 +2055,7 @@ def chk_estimate(ctx, case):
         if kind not in losses:
             losses[kind] = new_loss(kind, qst.num_variables)
         opt = lambda: loss_option(kind, mode, customs[ck] if mode == "custom" else None)
+        dd0 = data_digest(datasets, customs)
         try:
             with warnings.catch_warnings():
                 warnings.simplefilter("ignore")
@@ -1652,6 +2071,11 @@ def chk_estimate(ctx, case):
                         seq.append(np.array(est.calc_estimate(qst, datasets[d], losses[kind], opt(), algo, algo_option(to)).estimated_var))
                 except Exception as e:
                     seq.append(e)
+        if data_digest(datasets, customs) != dd0:
+            ctx.violation("estimate", "LossMinimizationEstimator.calc_estimate_sequence", "mutates-argument",
+                          "call %d (loss %s, mode %s) overwrote the empirical distributions handed to it: %s" % (
+                              k, ["generic", "fast"][kind], mode, [[[float(x) for x in pr] for _, pr in datasets[d]] for d in ds]), sub)
+            return
         for i, d in enumerate(ds):
             try:
                 with warnings.catch_warnings():
@@ -1679,6 +2103,8 @@ def sub_loss(ctx):
     # setter call between / after them - so that "mode B after mode A" is exercised for ALL A, B on every run
     base = gen_loss_case(rng, 0, 1)
     rbase = gen_loss_case(rng, 2, 1)
+    for b_ in (base, rbase):                       # an outcome that never occurred, in first and in last position
+        b_["datasets"][0][2][1] = "0/20"; b_["datasets"][1][0][1] = "20/20"
     for kind in (0, 1, 2, 3):
         b = base if kind in (0, 1) else rbase
         modes = MODES if kind in (0, 1) else ["identity", "custom"]
@@ -1739,9 +2165,61 @@ def sub_witness(ctx):
     ctx.run_cases("witness", chk_witness, cases)
 
 
-SUBS = [("cache", sub_cache), ("heap", sub_heap), ("basis", sub_basis), ("loss", sub_loss), ("witness", sub_witness), ("factory", sub_factory), ("history", sub_history)]
+SUBS = [("cache", sub_cache), ("heap", sub_heap), ("basis", sub_basis), ("loss", sub_loss), ("witness", sub_witness), ("pure", sub_pure), ("sampling", sub_sampling), ("tomo", sub_tomo), ("factory", sub_factory), ("derived", sub_derived), ("history", sub_history)]
 FNS = {"cache": chk_cache, "heap": chk_heap, "basis": chk_basis, "copy": chk_copy, "loss": chk_loss, "algo": chk_algo, "estimate": chk_estimate,
-       "witness": chk_witness, "history": chk_history, "factory": chk_factory}
+       "witness": chk_witness, "history": chk_history, "factory": chk_factory, "derived": chk_derived, "pure": chk_pure, "tomo": chk_tomo, "sampling": chk_sampling}
+
+
+def regen_tables(ctx):
+    """translator tie (protocol of flow.regen_check with this property's own translator gen/c13_py2coq.py): regenerate from the
+    CURRENT source the decision tables of the C13 machines (CompositeSystem getter/builder/delete tables; weighting-mode
+    dispatch of the squared-error and relative-entropy losses, refresh of the fast losses' extension; ProjectedGradientDescent's
+    early return and flag dispatch), compile them and re-check coq/gen/C13_Equiv.v (regenerated tables = hand-written model;
+    main cache theorem for the machine built from the regenerated tables).  returns (ok, info)"""
+    import os, re, shutil, subprocess, sys
+    import runner
+    V = runner.V
+    scratch = os.path.join(getattr(ctx, "scratch", os.path.join(V, "build", ctx.prop_id)), "gen")
+    os.makedirs(scratch, exist_ok=True)
+    gen_v = os.path.join(scratch, "Gen_C13.v")
+    for stem in (gen_v[:-2], os.path.join(scratch, "C13_Equiv")):
+        for ext in (".vo", ".vos", ".vok", ".glob"):
+            try:
+                os.remove(stem + ext)
+            except OSError:
+                pass
+    equiv = os.path.join(V, "coq", "gen", "C13_Equiv.v")
+    src = open(equiv).read()
+    src_nc = re.sub(r"\(\*.*?\*\)", " ", src, flags=re.S)
+    thms = re.findall(r"^\s*Theorem\s+([\w']+)", src_nc, flags=re.M)
+    ctx.theorems = list(ctx.theorems) + [t for t in thms if t not in ctx.theorems]
+    ctx.obligations += len(thms)
+    r = subprocess.run([sys.executable, os.path.join(V, "gen", "c13_py2coq.py"), os.environ.get("VERIF_REPO", "/repo"), gen_v], capture_output=True, text=True, timeout=120)
+    if r.returncode != 0:
+        return False, {"theorem": thms[0], "error": "translator rejected the source (outside its subset): " + (r.stdout + r.stderr)[-600:]}
+    qq = ["-Q", os.path.join(V, "coq", "theories"), "QV", "-Q", scratch, "QVGen"]
+    r = subprocess.run(["timeout", "300", "coqc"] + qq + [gen_v], capture_output=True, text=True)
+    if r.returncode != 0:
+        return False, {"theorem": thms[0], "error": "regenerated tables do not compile: " + (r.stdout + r.stderr)[-600:]}
+    dst = os.path.join(scratch, "C13_Equiv.v")
+    shutil.copy(equiv, dst)
+    r = subprocess.run(["timeout", "300", "coqc"] + qq + [dst], capture_output=True, text=True)
+    out = r.stdout + r.stderr
+    if r.returncode != 0:
+        m_ = re.search(r"line (\d+), characters", out)
+        thm = None
+        if m_:
+            names = re.findall(r"^\s*(?:Theorem|Lemma)\s+([\w']+)", "\n".join(src.splitlines()[:int(m_.group(1))]), flags=re.M)
+            thm = names[-1] if names else None
+        return False, {"theorem": thm, "error": out[-800:]}
+    blocks = runner.parse_assumptions(out)
+    bad = [a for closed, axs in blocks for a in axs if a not in runner.ALLOWED_AXIOMS and a.split(".")[-1] not in runner.ALLOWED_AXIOMS]
+    if len(blocks) != len(thms) or bad:
+        return False, {"theorem": thms[0], "error": "assumption gate on regenerated proofs: %d blocks / %d theorems, disallowed %s" % (len(blocks), len(thms), bad)}
+    for t, (closed, axs) in zip(thms, blocks):
+        ctx.axioms[t] = "closed" if closed else sorted(set(axs))
+    ctx.discharged += len(thms)
+    return True, {}
 
 
 def run(ctx):
@@ -1755,7 +2233,34 @@ def run(ctx):
                 "every step evaluated on the re-used object, on a fresh object and by the Coq machine of the repaired code + numerical model; "
                 "algo non-trivial = the job needs another projection than the first job, or the object carries a user projection. "
                 "Failing histories are shrunk by greedy op removal.")
-    flow.standard_run(ctx, SUBS)
+    # flow.standard_run with this property's own translator tie (flow.regen_check is bound to gen/py2coq.py)
+    import runner
+    ok, info = runner.check_props(ctx)
+    ok2, info2 = regen_tables(ctx)
+    ctx.boost = False
+    if not ok2:
+        ok, info = False, info2
+        ctx.boost = True          # widen the sweeps of the sub-checks that exercise the translated code: look harder for a failing input
+        ctx.note("regenerated-table obligations (coq/gen/C13_Equiv.v) not discharged: %s" % str(info2)[:400])
+        ctx.note("translator tie broken: cache / loss / algo sub-checks run with their thorough-tier sizes")
+    if not ok:
+        ctx.discharged = min(ctx.discharged, ctx.obligations - 1)
+    for name, fn in SUBS:
+        if ctx.only is None or name in ctx.only:
+            if ctx.boost and name in ("cache", "loss"):
+                tier0, ctx.tier = ctx.tier, "thorough"
+                try:
+                    fn(ctx)
+                finally:
+                    ctx.tier = tier0
+            else:
+                fn(ctx)
+    if not ok and not ctx.violations:
+        ctx.violation("theorems", "Props/%s.v" % ctx.prop_id, "theorem-broken:%s" % info.get("theorem"),
+                      "theorem %s no longer checks: %s" % (info.get("theorem"), info.get("error", "")[-400:]),
+                      {"theorem": info.get("theorem"), "error": info.get("error")}, no_input=True)
+    elif not ok:
+        ctx.note("theorem obligations not discharged: %s" % info)
 
 
 def replay(ctx, doc):
